@@ -2,6 +2,7 @@ package symgo
 
 import (
 	"bufio"
+	"context"
 	"fmt"
 	"io"
 	"math/big"
@@ -12,11 +13,11 @@ import (
 
 // Solver wraps one long-lived `z3 -in` process.
 type Solver struct {
-	cmd      *exec.Cmd
-	in       io.WriteCloser
-	out      *bufio.Reader
-	bin      string
-	args     []string
+	cmd  *exec.Cmd
+	in   io.WriteCloser
+	out  *bufio.Reader
+	bin  string
+	args []string
 	// emission scopes: per push level, the term IDs defined and names declared there
 	scopes []map[int]bool
 	decls  []map[string]bool
@@ -385,4 +386,81 @@ func parseModel(txt string, vars []*Term) (Model, error) {
 		m[vars[i].Name] = r
 	}
 	return m, nil
+}
+
+// Fallback decides one query from scratch with cvc5's integer encoding of bit-vector
+// arithmetic (--solve-bv-as-int=sum), which decides multiply/divide-by-constant kernels that
+// stall bit-blasting. asserts is the whole path condition plus the query.
+func Fallback(asserts []*Term, vars []*Term, timeout time.Duration) (SatResult, Model, error) {
+	var sb strings.Builder
+	sb.WriteString("(set-logic ALL)\n(set-option :produce-models true)\n")
+	done := map[int]bool{}
+	decl := map[string]bool{}
+	var def func(t *Term)
+	def = func(t *Term) {
+		if t.Op == OpVar {
+			if !decl[t.Name] {
+				decl[t.Name] = true
+				fmt.Fprintf(&sb, "(declare-const %s %s)\n", smtName(t.Name), sortStr(t.W))
+			}
+			return
+		}
+		if isLeaf(t) || done[t.ID] {
+			return
+		}
+		for i := 0; i < int(t.N); i++ {
+			def(t.A[i])
+		}
+		body := strings.ReplaceAll(termBody(t), "bv2int", "bv2nat")
+		fmt.Fprintf(&sb, "(define-fun t%d () %s %s)\n", t.ID, sortStr(t.W), body)
+		done[t.ID] = true
+	}
+	for _, a := range asserts {
+		def(a)
+	}
+	for _, v := range vars {
+		def(v)
+	}
+	for _, a := range asserts {
+		fmt.Fprintf(&sb, "(assert %s)\n", termRef(a))
+	}
+	sb.WriteString("(check-sat)\n")
+	if len(vars) > 0 {
+		sb.WriteString("(get-value (")
+		for _, v := range vars {
+			sb.WriteString(termRef(v) + " ")
+		}
+		sb.WriteString("))\n")
+	}
+	ctx, cancel := context.WithTimeout(context.Background(), timeout)
+	defer cancel()
+	cmd := exec.CommandContext(ctx, "cvc5", "--solve-bv-as-int=sum", "--lang=smt2", "-")
+	cmd.Stdin = strings.NewReader(sb.String())
+	out, err := cmd.Output()
+	txt := string(out)
+	first := strings.TrimSpace(txt)
+	if i := strings.Index(first, "\n"); i >= 0 {
+		first = first[:i]
+	}
+	switch first {
+	case "unsat":
+		return Unsat, nil, nil
+	case "sat":
+		rest := txt[strings.Index(txt, "sat")+3:]
+		if len(vars) == 0 {
+			return Sat, Model{}, nil
+		}
+		if strings.Contains(rest, "(error") {
+			return Unknown, nil, fmt.Errorf("cvc5 model error: %s", rest)
+		}
+		m, e := parseModel(rest, vars)
+		if e != nil {
+			return Unknown, nil, e
+		}
+		return Sat, m, nil
+	}
+	if err == nil {
+		err = fmt.Errorf("cvc5: %s", first)
+	}
+	return Unknown, nil, err
 }
